@@ -45,6 +45,7 @@ structure Cfg where
   -- share/dkg/pedersen
   xpubCastSelf : Bool     -- exchangePub: `resp.(*PublicKey)` comma-ok (own key)
   xpubCastPeer : Bool     -- exchangePub: `resp.(*PublicKey)` comma-ok (peer keys)
+  xpubIdx      : Bool     -- exchangePub (e9f475e): nil key / Index ≥ n rejected before `groupIds[pubkey.Index]`
   gdkgGuard    : Bool     -- genDistKeyGenerator: nil Publickey / Index ≥ n rejected
   dealsDkgNil  : Bool     -- getAndProcessDeals: `dkg == nil` return
   dealsCast    : Bool     -- getAndProcessDeals: `d.(*Deal)` comma-ok
@@ -87,7 +88,7 @@ structure Cfg where
   deriving DecidableEq, Repr
 
 def Cfg.all : Cfg :=
-  { xpubCastSelf := true, xpubCastPeer := true, gdkgGuard := true, dealsDkgNil := true, dealsCast := true,
+  { xpubCastSelf := true, xpubCastPeer := true, xpubIdx := true, gdkgGuard := true, dealsDkgNil := true, dealsCast := true,
     respsDkgNil := true, respsCast := true, findPubDkg := true, respNil := true, respVerOk := true, pubKeyLen := true, peerRespNil := true,
     encNil := true, nonceLen := true, secShareNil := true, shareVNil := true, findPubVss := true, aggNil := true,
     toBigLen := true, qloopOk := true, qloopCast := true, rsNil := true, rsMake := true, groupInfoIds := true,
@@ -203,24 +204,78 @@ def sessRun (cfg : Cfg) : Sess → List SessEv → Sess × List Out
     let (s2, os) := sessRun cfg s1 es
     (s2, o :: os)
 
+/-! #### what one session sees of the loop state (the maps are keyed by session id) -/
+
+/-- does the event concern session `s'` (an expiry sweep concerns it when its context is reported done) -/
+def touches (s' : String) : SessEv → Bool
+  | .msg sid _ => sid == s'
+  | .req sid _ => sid == s'
+  | .expire done => done.contains s'
+
+/-- the part of the loop state that belongs to session `s'`: its buffer and the expected count of its registration -/
+structure View where
+  cur : List Item
+  num : Option Int
+  deriving DecidableEq, Repr
+
+def view (s' : String) (s : Sess) : View :=
+  ⟨(alookup s' s.buf).getD [], (alookup s' s.req).map (·.num)⟩
+
+/-- `handlePeerMsg` / `handleRequest` as a function of that part alone -/
+def vstep (v : View) : SessEv → View × Out
+  | .msg _ it =>
+    if isDup v.cur it then (v, .ok "dup")
+    else
+      let cur' := v.cur ++ [it]
+      match v.num with
+      | none => (⟨cur', none⟩, .ok s!"buf {cur'.length}")
+      | some k =>
+        if (cur'.length : Int) = k then (⟨[], none⟩, .ok s!"fire {cur'.length}")
+        else (⟨cur', some k⟩, .ok s!"buf {cur'.length}")
+  | .req _ num =>
+    if (v.cur.length : Int) = num then (⟨[], none⟩, .ok s!"fire {v.cur.length}")
+    else (⟨v.cur, some num⟩, .ok s!"reg {v.cur.length}")
+  | .expire _ => (v, .dropped)
+
+def vrun : View → List SessEv → List Out
+  | _, [] => []
+  | v, e :: es => (vstep v e).2 :: vrun (vstep v e).1 es
+
+/-- the outputs of the events that concern `s'` -/
+def outsFor (s' : String) : List SessEv → List Out → List Out
+  | e :: es, o :: os => if touches s' e then o :: outsFor s' es os else outsFor s' es os
+  | _, _ => []
+
+/-- a complete honest exchange of session `s'` among `n + 1` members: the registration for `n`
+messages, then the messages of the `n` peers -/
+def honestRun (s' : String) (n : Nat) : List SessEv :=
+  .req s' n :: (List.range n).map (fun i => .msg s' (.pk i))
+
 /-! ### 2. `exchangePub` -/
 
-/-- an element of the `[]interface{}` a stage receives: the expected type or something else -/
+/-- an element of the `[]interface{}` a stage receives: the expected type or something else.
+For a public-key message: its `Index`, whether `Publickey` is present, and whether the authenticated
+sender stamped on it is the member with that index (e9f475e). -/
 inductive Elem where
-  | good (idx : Nat)
+  | good (idx : Nat) (sender : Bool := true) (hasKey : Bool := true)
   | other
   deriving DecidableEq, Repr
 
-def xpubBatch (cfg : Cfg) : List Elem → Nat → Except Out Nat
+def xpubBatch (cfg : Cfg) (n : Nat) : List Elem → Nat → Except Out Nat
   | [], k => .ok k
-  | .good _ :: r, k => xpubBatch cfg r (k + 1)
+  | .good idx sender hasKey :: r, k =>
+    if cfg.xpubIdx && (!hasKey || decide (idx ≥ n)) then .error (.err "foreign")
+    else if !hasKey then .error (.panic "dkg.exchangePub|deref|pubkey.Publickey.SenderId")
+    else if idx ≥ n then .error (.panic "dkg.exchangePub|index|groupIds[pubkey.Index]")
+    else if !sender then .error (.err "foreign")
+    else xpubBatch cfg n r (k + 1)
   | .other :: _, _ =>
     if cfg.xpubCastPeer then .error (.err "cast") else .error (.panic "dkg.exchangePub|typeassert|resp.(*PublicKey)#2")
 
 def xpubLoop (cfg : Cfg) (n : Nat) : List (List Elem) → Nat → Out
   | [], _ => .dropped                       -- peerPubc closed before n keys: the stage just ends
   | b :: bs, k =>
-    match xpubBatch cfg b k with
+    match xpubBatch cfg n b k with
     | .error o => o
     | .ok k' => if k' = n then .ok s!"{k'}" else xpubLoop cfg n bs k'
 
@@ -228,7 +283,7 @@ def xpubLoop (cfg : Cfg) (n : Nat) : List (List Elem) → Nat → Out
 def exchangePub (cfg : Cfg) (n : Nat) (self : Elem) (bs : List (List Elem)) : Out :=
   match self with
   | .other => if cfg.xpubCastSelf then .err "cast" else .panic "dkg.exchangePub|typeassert|resp.(*PublicKey)"
-  | .good _ => xpubLoop cfg n bs 1
+  | .good _ _ _ => xpubLoop cfg n bs 1
 
 /-! ### 3. `genDistKeyGenerator` → `NewDistKeyGenerator` → `vss.NewDealer` -/
 
@@ -270,7 +325,11 @@ def gdkgLoop (cfg : Cfg) : List PubMsg → Slots → Except Out Slots
         match p.key with
         | none => .error (.panic "dkg.genDistKeyGenerator|deref|pubkey.Publickey.Binary")
         | some .garbage => .error (.err "unmarshal")
-        | some k => gdkgLoop cfg ps (setSlot sl p.idx k)
+        | some k =>
+          -- babf9f5: one key under two indices is refused (the slot of p.idx is still empty here,
+          -- so "another slot holds an equal point" is "some slot holds it")
+          if sl.contains (some k) then .error (.err "dupkey")
+          else gdkgLoop cfg ps (setSlot sl p.idx k)
 
 def validT (t n : Nat) : Bool := decide (2 ≤ t) && decide (t ≤ n)
 
@@ -497,7 +556,7 @@ def stageEntry (guard : Bool) (haveDkg : Bool) (site : String) : Out :=
 /-- the `d.(*Deal)` / `r.(*Response)` assertion of the two stages on one element -/
 def stageCast (ok : Bool) (e : Elem) (site : String) : Out :=
   match e with
-  | .good _ => .ok ""
+  | .good _ _ _ => .ok ""
   | .other => if ok then .err "cast" else .panic site
 
 /-! ### 6. `decodePubKey` (genGroup) and `Signature.ToBigInt` -/
